@@ -468,8 +468,9 @@ def parse (bs : Bytes) : Option JFile :=
 /-- a decoder that stops after the first document (`json.NewDecoder(f).Decode`): what follows is not looked at -/
 def parseFirst (bs : Bytes) : Option JFile := (pDocument bs).map (·.1)
 
-/-- parser ∘ printer gives the document the values denote: decidable, evaluated by the driver for
-every genesis it writes (the model LOADS by parsing the bytes it rendered), not proved for all -/
+/-- parser ∘ printer gives the document the values denote.  Decidable; PROVED for every genesis whose
+time is `WallClockOK` (`Proofs/C18Text.lean`: `textRoundTrips_of_wallClock`, and only for those:
+`textRoundTrips_iff_wallClock`); the driver still LOADS by parsing the bytes it rendered. -/
 def TextRoundTrips (g : Genesis) : Bool :=
   match encode g with
   | .error _ => true
@@ -477,8 +478,8 @@ def TextRoundTrips (g : Genesis) : Bool :=
 
 /-- the wall-clock fields are those of a real `time.Time`: month 1..12, day 1..31, hour < 24,
 minute < 60, second < 60 (Go has no leap second), nanosecond < 10⁹.  `GoTime` is a record of free
-numbers; every value Go can hold satisfies this (`GoTime.ofUnix` does: `Spec.C18.ofUnix_wallClockOK`).
-It is what `TextRoundTrips` needs (`Proofs/C18Text.lean`: `textRoundTrips_of_wallClock`). -/
+numbers; every value Go can hold satisfies this.  It is exactly what `TextRoundTrips` needs
+(`Proofs/C18Text.lean`: `textRoundTrips_of_wallClock`, `textRoundTrips_iff_wallClock`). -/
 def WallClockOK (t : GoTime) : Bool :=
   decide (1 ≤ t.month) && decide (t.month ≤ 12) && decide (1 ≤ t.day) && decide (t.day ≤ 31) &&
   decide (t.hour < 24) && decide (t.min < 60) && decide (t.sec < 60) && decide (t.nsec < 1000000000)
